@@ -95,13 +95,26 @@ impl Monitor for C20 {
         "XML-representable well-formed documents with 0-3 leading and 0-3 trailing top-level comments / PIs, realised (a) by parsing a rendering, (b) through fixed::Document::xotify (and fixed::Element::xotify for the document element alone), (c) stepwise through the creation API in four construction orders x three attribute styles: all realisations must read back pairwise equal including declarations and attribute order, and serialise to identical strings. Non-trivial = document with >= 3 nodes; distinct by structural hash".into()
     }
     fn floors(&self, _tier: Tier) -> Vec<(&'static str, u64)> {
-        vec![("documents_all_routes_equal", 10_000), ("with_trailing_misc", 3_000), ("with_leading_misc", 3_000), ("fixed_element_alone", 3_000)]
+        vec![("documents_all_routes_equal", 10_000), ("with_trailing_misc", 3_000), ("with_leading_misc", 3_000), ("fixed_element_alone", 3_000), ("documents_with_empty_text_nodes", 2_000)]
     }
     fn assumptions(&self) -> Vec<String> {
         vec!["documents are restricted to the XML-representable domain without the open F29 trigger (a rendering must exist)".into()]
     }
     fn run_case(&self, _stream: usize, _idx: u64, rng: &mut Rng, ctx: &mut Ctx) {
-        let doc = gen_doc(rng);
+        let mut doc = gen_doc(rng);
+        // one document in ten holds EMPTY text nodes (next to no other text): XML cannot spell them, so only the
+        // fixed:: and the stepwise realisations are compared for it
+        let mut unparsable = false;
+        if rng.chance(1, 10) {
+            let mut n = 2;
+            for c in doc.children.iter_mut() {
+                sprinkle_empty_text(c, rng, &mut n);
+            }
+            if n < 2 {
+                unparsable = true;
+                ctx.count("documents_with_empty_text_nodes");
+            }
+        }
         if doc.count() >= 3 {
             ctx.nontrivial(doc.structural_hash());
         }
@@ -117,7 +130,7 @@ impl Monitor for C20 {
         let opts = RenderOpts { fragment: false, allow_decl: true, allow_bom: false, ..Default::default() };
         let r = render::render(&doc, &mut RandomChoices(rng), &opts);
         let mut realisations: Vec<(String, ANode, String)> = Vec::new();
-        {
+        if !unparsable {
             let mut x = Xot::new();
             // the parser's merging of character data and CDATA does not depend on the consolidation switch
             if rng.chance(1, 4) {
@@ -195,7 +208,13 @@ impl Monitor for C20 {
             if *t != doc {
                 let d = first_diff(&doc, t).unwrap_or_default();
                 let route = name.split('/').next().unwrap_or("").to_string();
-                let cause = if d.contains("children") && route.starts_with("fixed") { "top-level-comments-or-pis-misplaced" } else { diff_class(&d) };
+                let cause = if unparsable && d.contains("children") {
+                    "child-sequence-with-empty-text-node"
+                } else if d.contains("children") && route.starts_with("fixed") {
+                    "top-level-comments-or-pis-misplaced"
+                } else {
+                    diff_class(&d)
+                };
                 ctx.violation(
                     "a realisation is not the abstract document",
                     format!("C20/{}/differs/{}", route, cause),
